@@ -2714,7 +2714,10 @@ func callbackLoopsAreBoundedByWhatWasThere(c *core.Ctx) {
 					continue
 				}
 				cm := ci.Common()
-				if cm.IsInvoke() && cm.Method.Name() == "Call" {
+				if cal := cm.StaticCallee(); cal != nil && cal.Pkg == fn.Pkg && cal != fn && callsACallback(cal) {
+					// the call of the callback, in a helper of its own
+					calls = append(calls, in)
+				} else if cm.IsInvoke() && cm.Method.Name() == "Call" {
 					calls = append(calls, in)
 				} else if cm.StaticCallee() == nil && !cm.IsInvoke() {
 					if _, isB := cm.Value.(*ssa.Builtin); !isB {
@@ -4999,4 +5002,47 @@ func regexpMethodsAnswerWithTheRegexp(c *core.Ctx) {
 		c.Pass("modules/regexp|results-come-from-the-regexp", "", "no method of the regexp object returns a result computed by package strings")
 	}
 	c.Stat("regexp_results_via_strings", n)
+}
+
+// callsACallback: the function calls a script callable (Callable.Call, or a
+// function value that takes the context first) outside any loop of its own.
+func callsACallback(fn *ssa.Function) bool {
+	if fn.Blocks == nil || fn.Signature.Recv() != nil && fn.Name() == "Call" {
+		return false
+	}
+	takesCallable := false
+	for _, prm := range fn.Params {
+		if nt := core.NamedOf(prm.Type()); nt != nil && (nt.Obj().Name() == "Object" || nt.Obj().Name() == "Callable" || nt.Obj().Name() == "Builtin" || nt.Obj().Name() == "Function") {
+			takesCallable = true
+		}
+		if sig, ok := prm.Type().Underlying().(*types.Signature); ok && sig.Params().Len() >= 2 {
+			takesCallable = true
+		}
+	}
+	if !takesCallable {
+		return false
+	}
+	for _, b := range fn.Blocks {
+		for _, in := range b.Instrs {
+			ci, ok := in.(ssa.CallInstruction)
+			if !ok {
+				continue
+			}
+			cm := ci.Common()
+			if cm.IsInvoke() && cm.Method.Name() == "Call" {
+				return true
+			}
+			if cm.StaticCallee() == nil && !cm.IsInvoke() {
+				if _, isB := cm.Value.(*ssa.Builtin); !isB {
+					if sig, ok := cm.Value.Type().Underlying().(*types.Signature); ok && sig.Params().Len() >= 2 && core.IsNamed(sig.Params().At(0).Type(), "context", "Context") {
+						return true
+					}
+				}
+			}
+			if cal := cm.StaticCallee(); cal != nil && cal.Name() == "callBuiltinCallback" {
+				return true
+			}
+		}
+	}
+	return false
 }
